@@ -54,7 +54,8 @@ pub struct RawCycle {
     pub a: u32,
     pub b: u32,
     pub stray: u8,
-    /// 0 = search the previous root again after repeating its position command, 1 = again WITHOUT a position command
+    /// 0 = search the previous root again after repeating its position command, 1 = again WITHOUT a position command,
+    /// 2 = a different line of the same length that ends with the same move (only an earlier move differs)
     pub reuse: u8,
     pub ponder: u8,
 }
@@ -66,7 +67,7 @@ pub struct RawSession {
 }
 
 pub fn cycle_strategy() -> impl Strategy<Value = RawCycle> {
-    (any::<bool>(), prop_oneof![3 => gen::raw_pos(60), 2 => gen::raw_pos_endgames()], gen::raw_playout(24), 0..10u8, 0..12u8, any::<u32>(), any::<u32>(), (0..8u8, 0..6u8, 0..6u8)).prop_map(|(new_game, root, history, root_kind, go_kind, a, b, (stray, reuse, ponder))| RawCycle { new_game, root, history, root_kind, go_kind, a, b, stray, reuse, ponder })
+    (any::<bool>(), prop_oneof![3 => gen::raw_pos(60), 2 => gen::raw_pos_endgames()], gen::raw_playout(24), 0..10u8, 0..12u8, any::<u32>(), any::<u32>(), (0..8u8, 0..7u8, 0..6u8)).prop_map(|(new_game, root, history, root_kind, go_kind, a, b, (stray, reuse, ponder))| RawCycle { new_game, root, history, root_kind, go_kind, a, b, stray, reuse, ponder })
 }
 
 fn session_strategy() -> impl Strategy<Value = RawSession> {
@@ -231,6 +232,22 @@ fn build_session(r: &RawSession) -> SessionCase {
             }
             // a second go for the position the engine already holds
             (Some((f, m, p)), 1) => (f.clone(), m.clone(), p.clone()),
+            // a sibling line: must replace the held position although length and last move are the same
+            (Some((f, m, old_root)), 2) if sibling_history(f, m).is_some() => {
+                let sib = sibling_history(f, m).unwrap();
+                let new_root = root_of(f, &sib).unwrap_or_else(|_| old_root.clone());
+                steps.push(Step::Position { fen: f.clone(), moves: sib.clone() });
+                // ask for a move that exists only in the new position: an engine still holding the old one cannot answer it
+                let old_legal = old_root.legal_moves();
+                let only_new: Vec<Mv> = new_root.legal_moves().into_iter().filter(|x| !old_legal.contains(x)).collect();
+                let mut g = GoSpec::depth(1 + (c.a % 2) as u64);
+                if !only_new.is_empty() {
+                    g.searchmoves.push(only_new[c.b as usize % only_new.len()].uci());
+                }
+                steps.push(Step::Go(g));
+                prev = Some((f.clone(), sib, new_root));
+                continue;
+            }
             _ => {
                 let (fen, moves, root, _) = build_root(c);
                 steps.push(Step::Position { fen: fen.clone(), moves: moves.clone() });
@@ -322,6 +339,7 @@ pub fn check_session(case: &SessionCase, ctx: &mut Ctx) -> Result<(), String> {
     let mut gos = 0;
     let mut trace: Vec<String> = Vec::new();
     let mut searched: Vec<String> = Vec::new();
+    let mut last_position: Option<(String, Vec<String>)> = None;
     for step in &case.steps {
         match step {
             Step::NewGame => {
@@ -329,6 +347,13 @@ pub fn check_session(case: &SessionCase, ctx: &mut Ctx) -> Result<(), String> {
                 trace.push("ucinewgame".into());
             }
             Step::Position { fen, moves } => {
+                if let Some((pf, pm)) = &last_position {
+                    if pf == fen && pm.len() == moves.len() && pm != moves && pm.last() == moves.last() {
+                        ctx.class("sibling_line_same_length_same_last_move");
+                        ctx.nontrivial((fen.clone(), moves.clone(), "sibling"));
+                    }
+                }
+                last_position = Some((fen.clone(), moves.clone()));
                 root = root_of(fen, moves)?;
                 hist_len = moves.len();
                 s.position(fen, moves)?;
@@ -450,4 +475,35 @@ fn probe_k1(cfg: &PartCfg) -> PartOutcome {
     }
     out.samples.push(serde_json::json!({"k1_probe": fen}));
     out
+}
+
+/// a different legal line of the same length from the same start that ends with the same move text
+pub fn sibling_history(fen: &str, moves: &[String]) -> Option<Vec<String>> {
+    if moves.len() < 2 {
+        return None;
+    }
+    let g = gen::Game { start: fen.to_string(), moves: moves.to_vec() }.to_gamep().ok()?;
+    for i in 0..moves.len() - 1 {
+        for alt in g.positions[i].legal_moves() {
+            if alt == g.moves[i] {
+                continue;
+            }
+            let mut p = g.positions[i].apply(alt);
+            let mut ok = true;
+            for m in &g.moves[i + 1..] {
+                if p.is_legal(*m) {
+                    p = p.apply(*m);
+                } else {
+                    ok = false;
+                    break;
+                }
+            }
+            if ok && p.key() != g.last().key() {
+                let mut v: Vec<String> = moves.to_vec();
+                v[i] = alt.uci();
+                return Some(v);
+            }
+        }
+    }
+    None
 }
